@@ -42,8 +42,54 @@ func (p c08) Run(c *core.Ctx) {
 		c.Count("cases_with_a_post_processor_holder", 1)
 	}
 	prov := LeanProviders(c.Rng)
+	if c.Rng.Intn(3) == 0 {
+		// a user post-processor between candidate collection and narrowing that answers
+		// PostProcessProperties with the properties it handled (none)
+		prov = append(prov, &world.SubsetPP{Ord: 3, Tag: "no-such-tag"})
+		c.Count("cases_with_a_subset_answering_post_processor", 1)
+	}
 	repairUnsatisfiable(c, g, holders, 0.9, prov...)
-	runModelCase(c, g, holders, 4, true, nil, prov, func(exp world.Expect) bool {
+	var view func(sc *world.Scenario) func()
+	if len(holders) == 0 && c.Rng.Intn(4) == 0 {
+		// a user post-processor widens every qualifier set by "G1" at run time: the model narrows with the
+		// widened sets (literal holders are left out of these cases: their tags cannot be rewritten)
+		prov = append(prov, &world.WidenPP{Add: "G1"})
+		c.Count("cases_with_run_time_widened_qualifiers", 1)
+		view = func(sc *world.Scenario) func() {
+			type saved struct {
+				i    int
+				slot string
+				ts   world.TagSpec
+			}
+			var old []saved
+			for i := range sc.Nodes {
+				for slot, ts := range sc.Nodes[i].Tags {
+					if ts.Tag != "wire" {
+						continue
+					}
+					_, args := world.ParseTag(ts.Val)
+					if q, ok := args["qualifier"]; ok && !(len(q) == 1 && q[0] == "") {
+						old = append(old, saved{i, slot, ts})
+						// append the widened item to the (last) qualifier segment as written
+						parts := strings.Split(ts.Val, ",")
+						for k := len(parts) - 1; k >= 1; k-- {
+							if strings.HasPrefix(strings.ToLower(parts[k]), "qualifier=") {
+								parts[k] += " G1"
+								break
+							}
+						}
+						sc.Nodes[i].Tags[slot] = world.TagSpec{Tag: ts.Tag, Val: strings.Join(parts, ",")}
+					}
+				}
+			}
+			return func() {
+				for _, o := range old {
+					sc.Nodes[o.i].Tags[o.slot] = o.ts
+				}
+			}
+		}
+	}
+	runModelCase(c, g, holders, 4, true, nil, prov, view, func(exp world.Expect) bool {
 		byHolder := map[int][]world.PointRes{}
 		for _, pr := range exp.Points {
 			byHolder[pr.Pt.Holder] = append(byHolder[pr.Pt.Holder], pr)
